@@ -17,7 +17,9 @@ os.environ.setdefault("PYTHONHASHSEED", "0")
 
 def import_lib():
     """Import jsonschema from the tree under test (the current working tree of /repo by default)."""
-    import importlib
+    cur = sys.modules.get("jsonschema")
+    if cur is not None and os.path.realpath(os.path.dirname(os.path.dirname(cur.__file__))) == os.path.realpath(REPO):
+        return cur
     for m in [m for m in sys.modules if m == "jsonschema" or m.startswith("jsonschema.")]:
         del sys.modules[m]
     import jsonschema
